@@ -33,6 +33,27 @@ type Scenario struct {
 	RawRun         func() (viol []vsched.Violation, obs []string, inputs int64) // runs outside the scheduler (real sockets): input enumeration only
 	Horizon        time.Duration
 	Run            func()
+	// Shards > 1: this scenario is one of Shards copies that split the schedule tree between
+	// them: the alternatives branching off the default execution are numbered in DFS order and
+	// copy Shard explores those with number % Shards == Shard (each with its whole subtree);
+	// every copy runs the default execution itself. The union of the copies is the full search.
+	Shard, Shards int
+}
+
+// Sharded splits one scenario into n copies that together explore the same schedule tree
+// (one worker process each).
+func Sharded(sc *Scenario, n int) []*Scenario {
+	if n <= 1 {
+		return []*Scenario{sc}
+	}
+	var out []*Scenario
+	for i := 0; i < n; i++ {
+		c := *sc
+		c.Shard, c.Shards = i, n
+		c.Name = fmt.Sprintf("%s#shard=%d/%d", sc.Name, i, n)
+		out = append(out, &c)
+	}
+	return out
 }
 
 // Found is a violation with everything needed to replay it.
@@ -285,9 +306,16 @@ func (x *explorer) dfs(prefix []int, used int) {
 	for i, p := range res.Points {
 		choices[i] = int(p.Chosen)
 	}
+	branch := 0
 	for i := len(prefix); i < len(res.Points); i++ {
 		p := res.Points[i]
 		for alt := 1; alt < int(p.N); alt++ {
+			if prefix == nil && x.sc.Shards > 1 {
+				branch++
+				if (branch-1)%x.sc.Shards != x.sc.Shard {
+					continue
+				}
+			}
 			c := used
 			if p.Costs&(1<<uint(alt)) != 0 {
 				c++
